@@ -270,6 +270,15 @@ theorem pollStep_inv {sizeMeta : Nat} {SO SE : Bytes} (hrO : Room SO) (hrE : Roo
       obtain ⟨i1, wo1, we1⟩ := onReported_inv cfg host hrO hrE w false o fedO fedE futO futE hO hE hinv
       obtain ⟨i2, wo2, we2⟩ := onReported_inv cfg host hrO hrE _ true e fedO fedE futO futE hO hE i1
       exact ⟨i2, by rw [wo2, wo1], by rw [we2, we1]⟩
+  | pollRev o e =>
+    simp only [accOne, List.append_nil] at hO hE ⊢
+    simp only [pollStep, hupOne, Bool.or_false]
+    by_cases hl : w.loopLeft = true
+    · simp only [hl, ↓reduceIte]; exact ⟨hinv, trivial, trivial⟩
+    · simp only [hl, Bool.false_eq_true, ↓reduceIte]
+      obtain ⟨i1, wo1, we1⟩ := onReported_inv cfg host hrO hrE w true e fedO fedE futO futE hO hE hinv
+      obtain ⟨i2, wo2, we2⟩ := onReported_inv cfg host hrO hrE _ false o fedO fedE futO futE hO hE i1
+      exact ⟨i2, by rw [wo2, wo1], by rw [we2, we1]⟩
 
 /-- EVERY EVENT SEQUENCE keeps the invariant: whatever arrives, closes, is polled, read short or interrupted -/
 theorem pollRun_inv {sizeMeta : Nat} {SO SE : Bytes} (hrO : Room SO) (hrE : Room SE) :
